@@ -43,7 +43,7 @@ def specStep (m : Abs) (op : Op) (res : Option Err) : Option Abs :=
   if res = some .io then (if op.fault = .none then none else some m)
   else
     let (m', r) := specApply m op
-    if res = r then (if op.fault = .commit then none else some m') else none
+    if res = r then (if op.fault = .commit ∧ r = none then none else some m') else none
 
 /-- Order of an index: by index value, ties by id. -/
 def keyLt (a b : Str × Str) : Bool := decide (a.1 < b.1) || (a.1 == b.1 && decide (a.2 < b.2))
